@@ -103,6 +103,12 @@ fn ch_width(ch: char) -> usize {
     }
 }
 
+/// Verification hook: the private `ch_width`.
+#[cfg(fuzzing)]
+pub(crate) fn verif_ch_width(ch: char) -> usize {
+    ch_width(ch)
+}
+
 /// Compute the display width of `text` while skipping over ANSI
 /// escape sequences.
 ///
